@@ -74,8 +74,11 @@ def rand_grammar(rng, depth, opts=None):
                 u = rng.choice(UNARY + ["opt", "star", "plus", "group"] + (["dlist"] if o["extra"] else []))
                 if u == "dlist":
                     g = ("dlist", go(d - 1), ",")
-                elif u in ("star", "plus") and rng.random() < 0.2:
-                    g = (u + "stop", go(d - 1), go(1))
+                elif u in ("star", "plus"):
+                    body = go(d - 1)
+                    if nullable(body, ENV0) and rng.random() < 0.97:     # the property excludes nullable repetition bodies
+                        body = ("and", rng.choice([A, B, ("word", "ab")]), body)
+                    g = (u + "stop", body, go(1)) if rng.random() < 0.2 else (u, body)
                 else:
                     g = (u, go(d - 1))
         if o["names"] and rng.random() < 0.25:
@@ -89,6 +92,33 @@ def rand_grammar(rng, depth, opts=None):
             g = ("leavews", g)
         return g
     return go(depth)
+
+
+def nullable(g, env=None, depth=4):
+    """syntactic approximation of "can match the empty string" (used to keep repetition bodies non-nullable)"""
+    k = g[0]
+    if k in ("empty", "opt", "optd", "star", "starstop", "not", "fb", "pb", "stringend", "stringstart", "linestart", "lineend",
+             "wordstart", "wordend", "skipto", "skiptoi", "skiptof"):
+        return True
+    if k in ("and", "each"):
+        return all(nullable(x, env, depth) for x in g[1:])
+    if k == "andstop":
+        return all(nullable(x, env, depth) for x in g[2:])
+    if k in ("mf", "or"):
+        return any(nullable(x, env, depth) for x in g[1:])
+    if k in ("group", "grouplist", "suppress", "combine", "located", "dict", "copy", "plus", "atss", "atls", "leavews", "keeptabs"):
+        return nullable(g[1], env, depth)
+    if k in ("plusstop", "dlist", "ignore"):
+        return nullable(g[1], env, depth)
+    if k in ("name", "namestar", "act", "setws", "setname"):
+        return nullable(g[2], env, depth)
+    if k == "combinej":
+        return nullable(g[3], env, depth)
+    if k == "fwd":
+        if env and g[1] in env and depth > 0:
+            return nullable(env[g[1]], env, depth - 1)
+        return False
+    return False
 
 
 def sample_input(rng, g, env, depth=6):
